@@ -144,7 +144,7 @@ def closure (g : Graph) (k : Nat) : Nat → List Nat → List Nat → List Nat
 def reachSet (g : Graph) (k N : Nat) (u : Nat) : List Nat :=
   closure g k (N * k + 2) [u] [u]
 
-/-- Bool version of `StronglyConnected` (`stronglyConnected_iff`, Props/C03) -/
+/-- Bool version of `StronglyConnected` (`stronglyConnected_sound`, Props/C03) -/
 def stronglyConnected (g : Graph) (N : Nat) : Bool :=
   (List.range N).all fun u => let r := reachSet g (degree g) N u; (List.range N).all fun v => r.contains v
 
